@@ -80,11 +80,11 @@ theorem splitDna_norm (ds : List DNA) (h : nfL ds = true) : splitDna ds.length (
     simp [splitDna, DNA.norm, DNA.splice, DNA.children]
 
 section
-variable (W : Nat → Bool)
+variable (W : Cfg)
 
-theorem validL_length (gs : List GSpec) (ds : List DNA) (h : validL gs ds = true) : ds.length = gs.length := by
+theorem validL_length (gs : List GSpec) (ds : List DNA) (h : validL W.dom gs ds = true) : ds.length = gs.length := by
   induction gs generalizing ds with
-  | nil => simp [validL_nil ds h]
+  | nil => simp [validL_nil W ds h]
   | cons g gs ih =>
     cases ds with
     | nil => simp [validL] at h
@@ -93,7 +93,7 @@ theorem validL_length (gs : List GSpec) (ds : List DNA) (h : validL gs ds = true
       simp [ih ds h.2]
 
 theorem validL_append_len (a b : List GSpec) (d1 d2 : List DNA) (hl : d1.length = a.length)
-    (h : validL (a ++ b) (d1 ++ d2) = true) : validL a d1 = true ∧ validL b d2 = true := by
+    (h : validL W.dom (a ++ b) (d1 ++ d2) = true) : validL W.dom a d1 = true ∧ validL W.dom b d2 = true := by
   induction a generalizing d1 with
   | nil =>
     have : d1 = [] := by simpa using hl
@@ -111,17 +111,17 @@ theorem validL_append_len (a b : List GSpec) (d1 d2 : List DNA) (hl : d1.length 
 def EsT (t : Tmpl) : Prop :=
   ∀ v ds, egoT W t v = .ok ds →
     nfL ds = true ∧ ds.length = (specT W t).length ∧
-    (validL (specT W t) ds = true → ∀ rest, ∃ v', goT W t (ds ++ rest) = .ok (v', rest) ∧ eqvT v' v = true)
+    (validL W.dom (specT W t) ds = true → ∀ rest, ∃ v', goT W t (ds ++ rest) = .ok (v', rest) ∧ eqvT v' v = true)
 
 def EsL (ts : List Tmpl) : Prop :=
   ∀ vs ds, egoL W ts vs = .ok ds →
     nfL ds = true ∧ ds.length = (specL W ts).length ∧
-    (validL (specL W ts) ds = true → ∀ rest, ∃ vs', goL W ts (ds ++ rest) = .ok (vs', rest) ∧ eqvL vs' vs = true)
+    (validL W.dom (specL W ts) ds = true → ∀ rest, ∃ vs', goL W ts (ds ++ rest) = .ok (vs', rest) ∧ eqvL vs' vs = true)
 
 /-- Template level. -/
 def EsD (c : Tmpl) : Prop :=
   ∀ v d, encode W c v = .ok d →
-    nfD d = true ∧ (validG (dnaSpec W c) d = true → ∃ v', decode W c d = .ok v' ∧ eqvT v' v = true)
+    nfD d = true ∧ (validG W.dom (dnaSpec W c) d = true → ∃ v', decode W c d = .ok v' ∧ eqvT v' v = true)
 
 theorem EsD_of_EsT (c : Tmpl) (h : EsT W c) : EsD W c := by
   intro v d henc
@@ -166,7 +166,7 @@ theorem EsL_of_mem (ts : List Tmpl) (h : ∀ t ∈ ts, EsT W t) : EsL W ts := by
           refine ⟨(nfL_append a b).mpr ⟨hnfa, hnfb⟩, by simp [specL, hla, hlb], ?_⟩
           intro hv rest
           simp only [specL] at hv
-          obtain ⟨hva, hvb⟩ := validL_append_len _ _ a b hla hv
+          obtain ⟨hva, hvb⟩ := validL_append_len W _ _ a b hla hv
           obtain ⟨v', hgo, heq⟩ := hda hva (b ++ rest)
           obtain ⟨vs', hgoL, heqL⟩ := hdb hvb rest
           exact ⟨v' :: vs', by simp [goL, List.append_assoc, hgo, hgoL], by simp [eqvL, heq, heqL]⟩
@@ -193,7 +193,7 @@ theorem firstMatch_idx (cands : List Tmpl) (x : Tmpl) (n i : Nat) (child : DNA)
 theorem item_ok (cands : List Tmpl) (hIH : ∀ c ∈ cands, EsD W c) (x : Tmpl) (i : Nat) (child : DNA)
     (h : firstMatch (encFns W cands) x 0 = some (i, child)) :
     nfD (DNA.norm (some (.idx i)) [child]) = true ∧
-    ∀ chk, validSub (candV (candSpecs W cands)) chk (DNA.norm (some (.idx i)) [child]) = true →
+    ∀ chk, validSub (candV W.dom (candSpecs W cands)) chk (DNA.norm (some (.idx i)) [child]) = true →
       ∃ x', decodeSub (candFns W cands) (DNA.norm (some (.idx i)) [child]) = .ok x' ∧ eqvT x' x = true := by
   rw [encFns_eq] at h
   obtain ⟨c, _, hc, henc⟩ := firstMatch_idx W cands x 0 i child h
@@ -210,7 +210,7 @@ theorem item_ok (cands : List Tmpl) (hIH : ∀ c ∈ cands, EsD W c) (x : Tmpl) 
 theorem items_ok (cands : List Tmpl) (hIH : ∀ c ∈ cands, EsD W c) (vs : List Tmpl) (sds : List DNA)
     (h : encodeItems (encFns W cands) vs = .ok sds) :
     nfL sds = true ∧ sds.length = vs.length ∧
-    (sds.all (validSub (candV (candSpecs W cands)) false) = true →
+    (sds.all (validSub (candV W.dom (candSpecs W cands)) false) = true →
       ∃ vs', decodeSubs (candFns W cands) sds = .ok vs' ∧ eqvL vs' vs = true) := by
   induction vs generalizing sds with
   | nil =>
@@ -271,7 +271,7 @@ theorem EsT_choice_active (tag : Nat) (one : Bool) (k : Nat) (cands : List Tmpl)
             | [sd], [x], _, _, hsds, hnf, hdec, hv =>
               simp only [nfL, Bool.and_eq_true] at hnf
               rw [norm_none_of_nf sd hnf.1] at hv ⊢
-              have hall : [sd].all (validSub (candV (candSpecs W cands)) false) = true := by
+              have hall : [sd].all (validSub (candV W.dom (candSpecs W cands)) false) = true := by
                 simp only [List.all_cons, List.all_nil, Bool.and_true]
                 match sd, hv with
                 | .mk (some (.idx i)) cs, hv =>
@@ -335,7 +335,7 @@ theorem EsT_choice_active (tag : Nat) (one : Bool) (k : Nat) (cands : List Tmpl)
                     by simp [eqvT, heqs]⟩
                 · cases hitems
 
-theorem EsT_all (t : Tmpl) : EsT W t := by
+theorem EsT_all (hE : HooksEncSound W) (t : Tmpl) : EsT W t := by
   induction t using Tmpl.ind_t with
   | hconst a =>
     intro v ds hego
@@ -350,6 +350,7 @@ theorem EsT_all (t : Tmpl) : EsT W t := by
     | node l vs => simp [egoT] at hego
     | choice tag one k cs d s => simp [egoT] at hego
     | floatv tag lo hi => simp [egoT] at hego
+    | custom tag cid => simp [egoT] at hego
   | hnode l kids ih =>
     intro v ds hego
     cases v with
@@ -368,6 +369,7 @@ theorem EsT_all (t : Tmpl) : EsT W t := by
     | const b => simp [egoT] at hego
     | choice tag one k cs d s => simp [egoT] at hego
     | floatv tag lo hi => simp [egoT] at hego
+    | custom tag cid => simp [egoT] at hego
   | hchoice tag one k cands dst so ih =>
     by_cases hW : W tag = true
     · exact EsT_choice_active W tag one k cands dst so hW (fun c hc => EsD_of_EsT W c (ih c hc))
@@ -410,8 +412,30 @@ theorem EsT_all (t : Tmpl) : EsT W t := by
             ⟨.floatv tag lo hi, by simp [goT, hW], eqvT_refl_floatv tag lo hi⟩⟩
         · cases hego
       · cases hego
+  | hcustom tag cid =>
+    intro v ds hego
+    by_cases hW : W tag = true
+    · simp only [egoT, hW, if_true] at hego
+      split at hego
+      · rename_i d henc
+        cases hego
+        obtain ⟨hnf, ⟨g, hval⟩, v', hdec, heq⟩ := hE cid v d henc
+        refine ⟨by simp [nfL, hnf], by simp [specT, hW], ?_⟩
+        intro _ rest
+        exact ⟨v', by simp [goT, hW, hval, hdec], heq⟩
+      · cases hego
+    · simp only [egoT, hW, Bool.false_eq_true, if_false] at hego
+      split at hego
+      · split at hego
+        · rename_i heq
+          obtain ⟨rfl, rfl⟩ := heq
+          cases hego
+          exact ⟨by simp [nfL], by simp [specT, hW], fun _ rest =>
+            ⟨.custom tag cid, by simp [goT, hW], by simp [eqvT]⟩⟩
+        · cases hego
+      · cases hego
 
-theorem EsD_all (t : Tmpl) : EsD W t := EsD_of_EsT W t (EsT_all W t)
+theorem EsD_all (hE : HooksEncSound W) (t : Tmpl) : EsD W t := EsD_of_EsT W t (EsT_all W hE t)
 
 end
 
